@@ -640,12 +640,14 @@ def materialise(case, src, wdir):
     return q, text
 
 
-def _child_setup(e, bigstack, stdin_used=False):
+def _child_setup(e, bigstack, stdin_used=False, runs_tools=False):
     def f():
         if bigstack:
             import resource
             resource.setrlimit(resource.RLIMIT_STACK, (4 << 30, resource.RLIM_INFINITY))
         cf = e.get("closefd")
+        if cf == 2 and runs_tools:
+            cf = None   # (with descriptor 2 closed GNU as writes its warnings into whatever file it opens next -- its own output: not the compiler's doing)
         if cf is not None and not (cf == 0 and stdin_used):
             try:
                 os.close(cf)
@@ -768,7 +770,7 @@ def run_replica(sdir, reps, stage, e, infile, opts, src, wdir, stats, timeout=No
     so_path = os.path.join(real_wdir, "stdout.cap")
     so_arg = subprocess.PIPE if sk == "pipe" else (open(so_path, "wb") if sk == "file" else open(os.devnull, "wb"))
     po = subprocess.Popen(argv, cwd=wdir, env=env_vars(e, sdir, stats), stdin=stdin_arg, stdout=so_arg, stderr=subprocess.PIPE,
-                          start_new_session=True, pass_fds=extra_fds, preexec_fn=_child_setup(e, bigstack, from_stdin))
+                          start_new_session=True, pass_fds=extra_fds, preexec_fn=_child_setup(e, bigstack, from_stdin, records_cwd))
     if isinstance(stdin_arg, int) and stdin_arg >= 0 and from_stdin:
         os.close(stdin_arg)
     for fd in extra_fds:
